@@ -655,6 +655,14 @@ func (s *Store) SetUserinfoWithUserID(ctx context.Context, appID string, set mod
 		return injected(kind)
 	}
 	u, ok := s.live[userID]
+	if t, tenant := s.tenantUsers[tenantOf(ctx)]; tenant {
+		ok = false
+		for _, cand := range t {
+			if cand.UserID == userID {
+				u, ok = cand, true
+			}
+		}
+	}
 	if !ok {
 		c.Err = "not found"
 		return fmt.Errorf("user not found")
